@@ -176,7 +176,7 @@ func runC06(c *kit.Ctx) {
 				a := call.Common().Args
 				open := false
 				for _, f := range kit.FactsAt(call.Block()) {
-					if cc, ok := f.Cond.(*ssa.Call); ok && f.Pol && strings.HasSuffix(kit.CalleeName(cc), "scanner).isRegionScannerClosed") {
+					if closed, ok := scannerClosedFact(p, f); ok && closed {
 						open = true
 					}
 				}
@@ -273,6 +273,10 @@ func runC06(c *kit.Ctx) {
 					}
 				case *ssa.Slice:
 					walk(x.X)
+				case *ssa.Phi:
+					for _, e := range x.Edges {
+						walk(e)
+					}
 				case *ssa.MakeSlice:
 					// tmp := make(...); copy(tmp, rsk)
 					for _, r := range kit.Referrers(x) {
